@@ -261,7 +261,8 @@ class CacheMachine(RuleBasedStateMachine):
         return [{"id": str(e.get("id")), "owner": e.get("owner")} for e in self.eng[i]["F"].state["mem_index"]._eps]
 
     @rule(i=st.sampled_from([0, 1]), gid=st.sampled_from(["g1", "g2"]),
-          kind=st.sampled_from(["edge_weight", "edge_rel", "node_label", "new_node", "new_edge", "retarget_edge"]),
+          kind=st.sampled_from(["edge_weight", "edge_rel", "node_label", "new_node", "new_edge", "retarget_edge",
+                                "edge_weight_inplace", "edge_rel_inplace"]),
           val=st.sampled_from([0.0, 1.0, -0.9, 0.3]), label=st.sampled_from(["apple", "pear", "kiwi", "zzz"]))
     def upsert(self, i, gid, kind, val, label):
         from clematis.engine.types import Node, Edge
@@ -277,6 +278,14 @@ class CacheMachine(RuleBasedStateMachine):
             if kind == "edge_weight" and eids:
                 e = g.edges[eids[0]]
                 store.upsert_edges(gid, [Edge(id=e.id, src=e.src, dst=e.dst, weight=val, rel=e.rel)])
+            elif kind == "edge_weight_inplace" and eids:
+                e = g.edges[eids[0]]  # read-modify-write: edit the stored record and hand the SAME object back
+                e.weight = val
+                store.upsert_edges(gid, [e])
+            elif kind == "edge_rel_inplace" and eids:
+                e = g.edges[eids[-1]]
+                e.rel = "contradicts" if e.rel != "contradicts" else "supports"
+                store.upsert_edges(gid, [e])
             elif kind == "edge_rel" and eids:
                 e = g.edges[eids[-1]]
                 store.upsert_edges(gid, [Edge(id=e.id, src=e.src, dst=e.dst, weight=e.weight, rel="contradicts" if e.rel != "contradicts" else "supports")])
